@@ -195,10 +195,13 @@ class ReusePropertyGroupIdentifier(Scenario):
         from geoh5py.workspace import Workspace
         same = bool(cx.bool("same_uid"))
         same_obj = bool(cx.bool("same_object"))
+        as_text = bool(cx.bool("identifier_given_as_text"))
         ws = Workspace()
         a = _make(ws, 1, U[0])
         da = a.add_data({"da": {"values": _np.zeros(2)}})
-        pga = a.find_or_create_property_group(name="pga", properties=[da.uid], uid=U[2])
+        pga = a.find_or_create_property_group(name="pga", properties=[da.uid], uid=str(U[2]) if as_text else U[2])
+        cx.prove(ws.get_entity(U[2])[0] is pga and pga.uid == U[2], "a property group is found by its identifier, however it was given",
+                 "lookup")
         b = a if same_obj else _make(ws, 2, U[1])
         db = b.add_data({"db": {"values": _np.zeros(2)}})
         before = sorted((str(p.uid), p.name) for p in ws.property_groups)
@@ -225,6 +228,38 @@ class ReusePropertyGroupIdentifier(Scenario):
             cx.prove(len(ids) == len(set(ids)) and ids.count(str(U[2])) == 1,
                      "in the file the identifier occurs once", "refusal side effects")
             ws2.close()
+        return "refused" if refused else "created"
+
+
+class ReuseDataIdentifier(Scenario):
+    """data requested on an object with the identifier of one of its own (or another object's) live data"""
+    pid = "C06"
+
+    def body(self, cx):
+        from geoh5py.workspace import Workspace
+        same_s, same_obj_s = cx.bool("same_uid"), cx.bool("same_object")
+        self.known_class(cx, "refused_data_on_another_object", And(same_s, Not(same_obj_s)))
+        same, same_obj = bool(same_s), bool(same_obj_s)
+        ws = Workspace()
+        a = _make(ws, 1, U[0])
+        da = a.add_data({"da": {"values": _np.zeros(2), "uid": U[2]}})
+        b = a if same_obj else _make(ws, 2, U[1])
+        kids = [c.uid for c in b.children]
+        try:
+            nb = b.add_data({"db": {"values": _np.ones(2), "uid": U[2] if same else U[3]}})
+            refused = False
+        except RuntimeError:
+            refused, nb = True, None
+        cx.prove(refused == same, "a data identifier in use is refused, a free one accepted", "reuse refused")
+        cx.prove(ws.get_entity(U[2])[0] is da, "the identifier still belongs to its one owner", "lookup")
+        live = [e for e in ws.data if e.uid == U[2]]
+        cx.prove(len(live) == 1, "no two live data share an identifier", "uniqueness")
+        if refused:
+            now = [c.uid for c in b.children]
+            cx.prove(now == kids and len(now) == len(set(now)), "refused request leaves the object's children unchanged",
+                     "refusal side effects")
+            cx.prove(len(b.get_entity(U[2])) <= 1, "the object's own lookup returns at most one child for the identifier",
+                     "refusal side effects")
         return "refused" if refused else "created"
 
 
@@ -349,7 +384,7 @@ class OneTypePerClass(Scenario):
 
 def main(tier, seed):
     rc1 = run_property(
-        "C06", [ReuseIdentifier(), ReusePropertyGroupIdentifier(), CopyIdentifiers(), CopyAfterRemoval(), TypeCopy(), OneTypePerClass()], tier, seed,
+        "C06", [ReuseIdentifier(), ReusePropertyGroupIdentifier(), ReuseDataIdentifier(), CopyIdentifiers(), CopyAfterRemoval(), TypeCopy(), OneTypePerClass()], tier, seed,
         assumptions=["workspace level: the real in-memory Workspace (real h5py, real numpy) is driven by the symx explorer; only "
                      "entity kinds and flags are symbolic, every feasible combination is one path",
                      "garbage collection is not a variable: entities stay referenced by the harness"],
@@ -357,10 +392,11 @@ def main(tier, seed):
                  "remove / re-create histories and GC timing", "data and property-group identifier collisions"],
         bounds="entity kinds {ContainerGroup, Points, Curve} x same/free identifier; copy flags (same/other workspace, occupied, "
                "with data, with property group)",
-        expected_outcomes={"ReuseIdentifier": {"refused"}, "ReusePropertyGroupIdentifier": {"refused"}, "CopyIdentifiers": {"ok"},
+        expected_outcomes={"ReuseIdentifier": {"refused"}, "ReusePropertyGroupIdentifier": {"refused"}, "ReuseDataIdentifier": {"refused"},
+                           "CopyIdentifiers": {"ok"},
                            "CopyAfterRemoval": {"ok"}, "TypeCopy": {"ok"},
                            "OneTypePerClass": {"ok"}},
-        jobs=6,
+        jobs=7,
     )
     rc2 = run_xh(
         "C06", PRELUDE, CONDS, tier, seed,
